@@ -251,7 +251,7 @@ PROPS["C18"] = {
 }
 
 PROPS["C03"] = {
-    "files": ["region/fakes.go", "region/c03_failure.go"],
+    "files": ["region/fakes.go", "region/c18_inflight.go", "region/c03_failure.go"],
     "claim": "A real region client (NewClient + Dial, batching and reader goroutines) on a connection whose k-th operation fails "
              "(k = 1..K symbolic over Read / Write / SetReadDeadline / SetWriteDeadline, failing writes with or without a partial "
              "write) or that is closed externally before / between / after the requests, with one unbatched call and a batch of two "
@@ -264,6 +264,8 @@ PROPS["C03"] = {
     "jobs": [
         {"name": "conn_failure", "pkg": "region", "entry": "VerifConnFailure", "reach": ["failed"], "no_native": False, "native_retries": 3,
          "preempts": {"quick": 1, "thorough": 2}, "params": {"quick": {"K": 8, "protoMax": 1, "protoFixed": 1}, "thorough": {"K": 12, "protoMax": 1, "protoFixed": 1}}},
+        {"name": "failure_with_responses", "pkg": "region", "entry": "VerifFailureWithResponses", "stubs": RECV_STUBS, "reach": ["completed"],
+         "params": {"quick": {"K": 6, "protoMax": 1, "protoFixed": 1}, "thorough": {"K": 8, "protoMax": 1, "protoFixed": 1}}},
     ],
 }
 
